@@ -178,10 +178,47 @@ Proof.
   assert (Lc : length (center y) = length Zp) by (unfold center; now rewrite map_length, LZ).
   destruct (gauss_seidel_descent pp (ztz_ridge pp Zp ridge) (zty pp Zp (center y))
               (A_length pp Zp ridge) (A_rows pp Zp ridge) (b_length pp Zp (center y))
-              (fun i j Hi Hj => A_sym (length Zp) pp Zp ridge eq_refl i j Hi Hj)
-              (fun i Hi => A_diag_pos (length Zp) pp Zp ridge eq_refl i Hr Hi) atol maxiter uh G) as [D Lu].
+              (fun i j Hi Hj => A_sym (length Zp) pp Zp (center y) ridge eq_refl Lc i j Hi Hj)
+              (fun i Hi => A_diag_pos (length Zp) pp Zp (center y) ridge eq_refl Lc i Hr Hi) atol maxiter uh G) as [D Lu].
   rewrite select_scatter by exact Lu.
   rewrite (pls_qform (length Zp) pp Zp (center y) ridge eq_refl RZ Lc uh Lu).
   rewrite (pls_qform (length Zp) pp Zp (center y) ridge eq_refl RZ Lc (repeat 0 pp) (repeat_length _ _)).
   rewrite (qform_zero pp _ _ (A_length pp Zp ridge) (A_rows pp Zp ridge) (b_length pp Zp (center y))). lra.
+Qed.
+
+(** with a positive ridge parameter the fit is always defined (no zero pivot) *)
+Lemma rr_fit1_defined p (Zg : zmat) y ridge atol maxiter : length y = length Zg -> 0 < ridge ->
+  exists beta u, rr_fit1 p Zg y ridge atol maxiter = Some (beta, u).
+Proof.
+  intros Hy Hr. unfold rr_fit1.
+  set (mask := poly_mask p Zg). set (Zp := map (fun r => select mask (map inject_Z r)) Zg). set (pp := length (filter (fun x => x) mask)).
+  assert (Lc : length (center y) = length Zp) by (unfold center, Zp; now rewrite !map_length).
+  unfold gauss_seidel. rewrite diag_ok_of_pos.
+  - destruct (Qltb atol (2 * atol) && negb (Nat.eqb maxiter 0)); eexists; eexists; reflexivity.
+  - intros i Hi. rewrite A_length in Hi. exact (A_diag_pos (length Zp) pp Zp (center y) ridge eq_refl Lc i Hr Hi).
+Qed.
+
+(** if Gauss-Seidel stops before the iteration limit, the fitted effects solve the penalised normal equations
+    (Z'Z + ridge I) u = Z'(y - mean) up to  atol * sum_{j>i} |A_ij|  in every row i *)
+Theorem rr_fit1_normal_equations p (Zg : zmat) y ridge atol maxiter beta u :
+  rows_len p Zg -> length y = length Zg -> 0 < ridge -> 0 < atol -> (0 < maxiter)%nat ->
+  rr_fit1 p Zg y ridge atol maxiter = Some (beta, u) ->
+  let mask := poly_mask p Zg in
+  let Zp := map (fun r => select mask (map inject_Z r)) Zg in
+  let pp := length (filter (fun x => x) mask) in
+  let A := ztz_ridge pp Zp ridge in
+  let b := zty pp Zp (center y) in
+  exists k, (1 <= k <= maxiter)%nat /\ select mask u = iter_sweep A b k (repeat 0 pp) /\
+    ((k < maxiter)%nat -> forall i, (i < pp)%nat ->
+       Qabs' (nth i (residual A b (select mask u)) 0) <= atol * bigsum pp (fun j => if Nat.ltb i j then Qabs' (nth j (nth i A []) 0) else 0)).
+Proof.
+  intros HZ Hy Hr Hat Hmax E mask Zp pp A b. unfold rr_fit1 in E. fold mask Zp pp A b in E.
+  destruct (gauss_seidel A b atol maxiter) as [uh|] eqn:G; [|discriminate]. injection E as _ <-.
+  destruct (gauss_seidel_exit_residual pp A b atol maxiter uh (A_length pp Zp ridge) (A_rows pp Zp ridge) (b_length pp Zp (center y)) Hat Hmax G)
+    as (k & Hk & Ek & Ck).
+  assert (Lu : length uh = pp).
+  { rewrite Ek. apply (iter_sweep_length pp A b (A_length pp Zp ridge) (A_rows pp Zp ridge) (b_length pp Zp (center y))); [|apply repeat_length].
+    intros i Hi. assert (Lc : length (center y) = length Zp) by (unfold center, Zp; now rewrite !map_length).
+    pose proof (A_diag_pos (length Zp) pp Zp (center y) ridge eq_refl Lc i Hr Hi). fold A in H. lra. }
+  rewrite select_scatter by exact Lu. exists k. repeat split; try lia; assumption.
 Qed.
